@@ -107,8 +107,9 @@ JudgeStep(role, stored, act, acc, ob) ==
         b6 == IF act.a = "Sleep" /\ ~ob.wsOpen /\ a1.nClosed = 0 /\ ~a1.dead
               THEN b5 \cup {<<"C11", "end-not-reported", a1.last, act.a>>} ELSE b5
         b7 == IF act.a = "Sleep" /\ a1.term /\ ob.wsOpen THEN b6 \cup {<<"C04", "transport-not-closed", a1.last>>} ELSE b6
-        \* a datagram that arrived before completion is held back (ob.buf = length of the pre-completion buffer)
-        b8 == IF ~a1.dead /\ ~a1.compl /\ ob.buf # Len(a1.inj) - Len(a1.del)
+        \* a datagram that arrived before completion is held back (ob.buf = length of the pre-completion buffer) - as long as
+        \* the connection has not ended: a connection that ended in an error or was closed need not keep anything
+        b8 == IF ~a1.dead /\ ~a1.compl /\ ~a1.term /\ ~a1.closed /\ ob.wsOpen /\ ob.buf # Len(a1.inj) - Len(a1.del)
               THEN b7 \cup {<<"C06", "datagram-not-held-back", a1.last, act.a>>} ELSE b7
     IN  [acc |-> a1, bad |-> b8]
 
